@@ -128,18 +128,26 @@ fn confirm_serving(ctx: &Ctx, w: &Written, effective_port: u16, seed: &[u8], tag
     (r.is_ok(), info)
 }
 
-fn judge_numeric(ctx: &Ctx, out: &mut Out, key: &str, v: i64, seed: &[u8], rng: &mut Rng) {
+fn judge_numeric(ctx: &Ctx, out: &mut Out, key: &str, v: i64, seed: &[u8], rng: &mut Rng, context: usize) {
     // the same written value through both sources
     let mut results: Vec<(bool, Result<Value, String>, Written)> = Vec::new();
     for via_env in [false, true] {
         let port = free_port(false);
         let mut pairs = base_pairs(port, seed);
         pairs = with(pairs, key, &v.to_string());
-        if key == "num_workers" && !(1..=64).contains(&v) {
-            // keep start-up confirmations cheap: nothing else special
+        if context == 1 {
+            // the same value next to other, valid, optional settings: validation of one key must
+            // not depend on (or be undone by) the others
+            let dir = ctx.scratch.join("persist");
+            std::fs::create_dir_all(&dir).ok();
+            pairs = with(pairs, "client_stats", "on");
+            pairs = with(pairs, "persistence_directory", dir.to_str().unwrap());
+            if key != "status_interval" {
+                pairs = with(pairs, "status_interval", "30");
+            }
         }
         let w = Written { pairs, via_env };
-        let tag = format!("{}-{}-{}", key, v, if via_env { "env" } else { "file" });
+        let tag = format!("{}-{}-{}-c{}", key, v, if via_env { "env" } else { "file" }, context);
         let r = run_probe(ctx, &w, &tag);
         out.obs("probe_runs", 1);
         results.push((via_env, r, w));
@@ -149,7 +157,8 @@ fn judge_numeric(ctx: &Ctx, out: &mut Out, key: &str, v: i64, seed: &[u8], rng: 
     let mut effective: Vec<Option<i64>> = Vec::new();
     for (via_env, r, w) in &results {
         let desc = json!({"kind":"config","key":key,"written":v,"source":src(*via_env),"pairs": w.pairs.iter().map(|(k,x)| (k.clone(), if k=="seed" {"<seed>".into()} else {x.clone()})).collect::<Vec<_>>()});
-        out.case(fnv64(format!("{}{}{}", key, v, via_env).as_bytes()), true);
+        out.case(fnv64(format!("{}{}{}{}", key, v, via_env, context).as_bytes()), true);
+        let cx = if context == 1 { " with-client_stats" } else { "" };
         let probe = match r {
             Ok(p) => p.clone(),
             Err(e) if e.contains("watchdog") => {
@@ -164,7 +173,7 @@ fn judge_numeric(ctx: &Ctx, out: &mut Out, key: &str, v: i64, seed: &[u8], rng: 
             effective.push(None);
             if ok_range {
                 out.violation(
-                    &format!("C16 {} {} {} in-range-refused", src(*via_env), key, v),
+                    &format!("C16 {} {} {} in-range-refused{}", src(*via_env), key, v, cx),
                     &format!("documented in-range value {}={} is refused through the {} source ({})", key, v, src(*via_env), probe["refused"]),
                     desc,
                 );
@@ -182,7 +191,7 @@ fn judge_numeric(ctx: &Ctx, out: &mut Out, key: &str, v: i64, seed: &[u8], rng: 
                 out.obs("server_confirmations", 1);
                 if serving {
                     out.violation(
-                        &format!("C16 {} {} {}->{}", src(*via_env), key, v, got.map(|g| g.to_string()).unwrap_or("none".into())),
+                        &format!("C16 {} {} {}->{}{}", src(*via_env), key, v, got.map(|g| g.to_string()).unwrap_or("none".into()), cx),
                         &format!("{}={} written in the {} source, server runs with {:?} ({})", key, v, src(*via_env), got, info),
                         desc,
                     );
@@ -197,7 +206,7 @@ fn judge_numeric(ctx: &Ctx, out: &mut Out, key: &str, v: i64, seed: &[u8], rng: 
             out.obs("server_confirmations", 1);
             if serving {
                 out.violation(
-                    &format!("C16 {} {} {}->{}", src(*via_env), key, v, got.map(|g| g.to_string()).unwrap_or("none".into())),
+                    &format!("C16 {} {} {}->{}{}", src(*via_env), key, v, got.map(|g| g.to_string()).unwrap_or("none".into()), cx),
                     &format!("out-of-range {}={} in the {} source is not refused: the server starts and runs with {:?} ({})", key, v, src(*via_env), got, info),
                     desc,
                 );
@@ -284,7 +293,11 @@ pub fn run(ctx: &Ctx, out: &mut Out) {
         }
         let hv = if k == "health_check_port" { free_port(true) as i64 } else { *v };
         let v = if k == "health_check_port" && *v == 8000 { hv } else { *v };
-        judge_numeric(ctx, out, k, v, &seed, &mut rng);
+        judge_numeric(ctx, out, k, v, &seed, &mut rng, 0);
+        if !in_range(k, v) || i % 3 == 0 {
+            judge_numeric(ctx, out, k, v, &seed, &mut rng, 1);
+            out.obs("values_also_probed_with_other_settings", 1);
+        }
         out.obs(&format!("key_{}", k), 1);
     }
     // missing required / unknown keys / seeds / client_stats / persistence_directory
@@ -296,7 +309,9 @@ pub fn run(ctx: &Ctx, out: &mut Out) {
         let base = base_pairs(port, &seed);
         for missing in ["interface", "port", "seed"] {
             let p: Vec<_> = base.iter().filter(|(k, _)| k != missing).cloned().collect();
-            extra.push((format!("missing-{}", missing), Written { pairs: p, via_env }, true, None));
+            extra.push((format!("missing-{}", missing), Written { pairs: p.clone(), via_env }, true, None));
+            let p2 = with(with(p, "client_stats", "on"), "persistence_directory", dir.to_str().unwrap());
+            extra.push((format!("missing-{}-with-client_stats", missing), Written { pairs: p2, via_env }, true, None));
         }
         extra.push(("minimal-valid".into(), Written { pairs: base.clone(), via_env }, false, Some(("port", json!(port)))));
         extra.push(("seed-roundtrip".into(), Written { pairs: base.clone(), via_env }, false, Some(("seed", json!(hex(&seed))))));
